@@ -173,4 +173,157 @@ theorem cloneChain_facts (hct : CTOk ct) (hnd : DictNodup ct) (n k : Nat) :
 
 end Clone
 
+/-! ### A freshly created object satisfies the side conditions of the copy hooks -/
+section Fresh
+variable {ct : ClassTable}
+
+theorem createOK_step {c : ClsId} {ci : ClassInfo} {p : Name × ClsId} (h : CreateOK ct c)
+    (hci : ct[c]? = some ci) (hp : p ∈ ci.dictInst) : CreateOK ct p.2 :=
+  fun c' ci' hr => h c' ci' (.step c ci p c' hci hp hr)
+
+/-- The syntactic condition on the whole class table implies `CreateOK` for every class. -/
+theorem createOK_of_all
+    (h : ∀ (c' : ClsId) (ci : ClassInfo), ct[c']? = some ci → (ci.kind = .fitness ∨ ci.kind = .cfitness) → ci.dictInst = [])
+    (c : ClsId) : CreateOK ct c :=
+  fun c' ci _ => h c' ci
+
+theorem Ext.keeps {A : Prop} {s s' : State} (hE : Ext A s s') (hb : Bounded s) :
+    Keeps s.objs s'.objs := by
+  intro x o ho
+  have hx : x < s.next := by
+    apply Nat.lt_of_not_le
+    intro hle
+    rw [hb x hle] at ho
+    cases ho
+  rw [hE.old x hx]
+  exact ho
+
+theorem Within_of_isAtom (objs : Oid → Option Obj) (n : Nat) {v : Val} (h : v.isAtom = true) :
+    Within ct CopyOK objs n v := by
+  cases v with
+  | atom a => exact Within_atom ct CopyOK objs n a
+  | ref y => cases h
+
+/-- The object `init_type` assembles satisfies `CopyOK`. -/
+theorem copyOK_fresh (objs : Oid → Option Obj) (c : ClsId) (ci : ClassInfo) (items : List Val)
+    (attrs : List (Name × Val)) (mu : Bool)
+    (hfit : (ci.kind = .fitness ∨ ci.kind = .cfitness) → ci.dictInst = [])
+    (hnames : attrs.map (·.1) = ci.dictInst.map (·.1))
+    (hitems : ∀ v ∈ items, v.isAtom = true) :
+    CopyOK objs ci ⟨c, items, dictUpdate attrs (baseInitAttrs ci.kind), mu⟩ := by
+  have hnil : ci.dictInst = [] → attrs = [] := by
+    intro hd
+    rw [hd] at hnames
+    exact List.map_eq_nil_iff.1 hnames
+  refine ⟨fun _ p hp => ?_, fun hk => ?_, fun hk => ?_, fun _ => hitems,
+    fun _ v hv => ImmLeaf_of_isAtom objs v (hitems v hv)⟩
+  · show (lookup p.1 (dictUpdate attrs (baseInitAttrs ci.kind))).isSome = true
+    rw [lookup_dictUpdate]
+    cases lookup p.1 (baseInitAttrs ci.kind) with
+    | some w => rfl
+    | none =>
+      show (lookup p.1 attrs).isSome = true
+      rw [lookup_isSome_iff, hnames]
+      exact List.mem_map.2 ⟨p, hp, rfl⟩
+  · have hd := hfit (Or.inl hk)
+    have ha := hnil hd
+    subst ha
+    refine ⟨hd, fun k => ?_, hitems⟩
+    show lookup k (dictUpdate [] (baseInitAttrs ci.kind)) = none
+    rw [hk]
+    rfl
+  · have hd := hfit (Or.inr hk)
+    have ha := hnil hd
+    subst ha
+    have e : dictUpdate [] (baseInitAttrs ci.kind) = [(cvName, .atom noneAtom)] := by
+      rw [hk]; rfl
+    refine ⟨hd, ?_, fun k hkn => ?_, hitems⟩
+    · show (lookup cvName (dictUpdate [] (baseInitAttrs ci.kind))).isSome = true
+      rw [e]
+      simp [lookup]
+    · show lookup k (dictUpdate [] (baseInitAttrs ci.kind)) = none
+      rw [e]
+      simp [lookup, Ne.symm hkn]
+
+/-- The attribute loop of `init_type`: every instantiated attribute satisfies the side conditions,
+given that instantiation with fuel `n` does. -/
+theorem instLoop_within (n : Nat)
+    (hN : ∀ (s s' : State) (c' : ClsId) (y : Oid), Bounded s → CreateOK ct c' →
+      newInst ct n s c' [] = some (s', y) → Within ct CopyOK s'.objs n (.ref y)) :
+    ∀ (l : List (Name × ClsId)) (s s' : State) (attrs : List (Name × Val)), Bounded s →
+      (∀ p ∈ l, CreateOK ct p.2) → mapSt (Heap.instStep ct n) s l = some (s', attrs) →
+      ∀ q ∈ attrs, Within ct CopyOK s'.objs n q.2 := by
+  intro l
+  induction l with
+  | nil =>
+    intro s s' attrs _ _ h q hq
+    rw [mapSt_nil] at h
+    cases h
+    cases hq
+  | cons p ps ih =>
+    intro s s' attrs hb hl h q hq
+    obtain ⟨s1, b, bs, h1, h2, rfl⟩ := mapSt_cons_inv h
+    unfold Heap.instStep at h1
+    split at h1
+    · cases h1
+    · rename_i s1' y hrun
+      cases h1
+      obtain ⟨_, hE1, _⟩ := newInst_nil_of_eq ct hb hrun
+      have hE2 := (instLoop_of_eq ct n (fun s s' c' y hb h => newInst_nil_of_eq ct hb h)
+        ps s1 s' bs hE1.bound h2).1
+      rcases List.mem_cons.1 hq with rfl | hq
+      · exact Within_ext ct _ _ (Ext.keeps hE2 hE1.bound) n _
+          (hN _ _ _ _ hb (hl p List.mem_cons_self) hrun)
+      · exact ih s1 s' bs hE1.bound (fun p' hp' => hl p' (List.mem_cons_of_mem _ hp')) h2 q hq
+
+/-- `cls(items)` with atom items, from success: the new object satisfies the side conditions of
+the copy hooks, at depth = the fuel of the instantiation. -/
+theorem newInst_within :
+    ∀ (fuel : Nat) (st st' : State) (c : ClsId) (items : List Val) (x : Oid), Bounded st →
+      CreateOK ct c → (∀ v ∈ items, v.isAtom = true) →
+      newInst ct fuel st c items = some (st', x) → Within ct CopyOK st'.objs fuel (.ref x) := by
+  intro fuel
+  induction fuel with
+  | zero => intro st st' c items x _ _ _ h; simp [newInst] at h
+  | succ n ih =>
+    intro st st' c items x hb hok hitems h
+    rw [newInst_succ] at h
+    split at h
+    · cases h
+    · rename_i ci hci
+      split at h
+      · cases h
+      · rename_i sb attrs hrun
+        cases h
+        have hba : Bounded ⟨st.objs, st.next + 1, st.memo⟩ :=
+          fun y hy => hb y (Nat.le_of_succ_le hy)
+        obtain ⟨hE, hA⟩ := instLoop_of_eq ct n
+          (fun s s' c' y hb h => newInst_nil_of_eq ct hb h) ci.dictInst _ _ _ hba hrun
+        have hW := instLoop_within n
+          (fun s s' c' y hb hok h => ih s s' c' [] y hb hok (fun _ hv => by cases hv) h)
+          ci.dictInst _ _ _ hba (fun p hp => createOK_step hok hci hp) hrun
+        have hnone : sb.objs st.next = none := by
+          rw [hE.old st.next (Nat.lt_succ_self _)]
+          exact hb st.next (Nat.le_refl _)
+        have hk : Keeps sb.objs (define sb.objs st.next
+            ⟨c, items, dictUpdate attrs (baseInitAttrs ci.kind), ci.kind != .node⟩) := by
+          intro y o ho
+          have hne : y ≠ st.next := by
+            intro e
+            rw [e, hnone] at ho
+            cases ho
+          rw [define_other _ _ _ _ hne]
+          exact ho
+        refine ⟨_, ci, define_at _ _ _, hci,
+          copyOK_fresh _ c ci items attrs _ (hok c ci (.self c) hci) hA.1 hitems, ?_⟩
+        intro v hv
+        simp only [Obj.children, List.mem_append, List.mem_map] at hv
+        rcases hv with hv | ⟨q, hq, rfl⟩
+        · exact Within_of_isAtom _ n (hitems v hv)
+        · rcases mem_dictUpdate hq with hq | hq
+          · exact Within_of_isAtom _ n (baseInitAttrs_atom ci.kind q hq)
+          · exact Within_ext ct _ _ hk n _ (hW q hq)
+
+end Fresh
+
 end Heap.Copy
